@@ -38,6 +38,7 @@ def run(prog, run):
     r3(prog, run)
     r4(prog, run)
     r5(prog, run)
+    r6(prog, run)
 
 
 def r1(prog, run, hm):
@@ -421,3 +422,54 @@ def r5(prog, run):
                 run.ok(rid, f.loc(i), 'an entry is updated only after %s were compared' % ', '.join(sorted(x.split('::')[-1] for x in ident)))
     if not seen:
         raise AnalysisBroken('C18.R5: no update of a stored held-back decision found in QXmppAtmTrustMemoryStorage.cpp')
+
+
+# --------------------------------------------------------------------------- R6: where the sender's level comes from; order of the two halves of one message
+def r6(prog, run):
+    rid = run.rule('C18.R6', 'the level a sender key is judged by is the stored one: the trustLevel() the message handler asks has no source of levels besides the storage\'s own '
+                             'trustLevel() for the same (encryption, owner, key) - no level constant is produced there (an unstored or empty key must come out undecided, not '
+                             'authenticated); and within one trust message the distrust half is applied in the continuation of the authentication half, so a held-back claim that '
+                             'the authentications release cannot overwrite a distrust the same authenticated sender declares', floor=2)
+    hm = prog.fn(ATM + '::handleMessage')
+    tl = None
+    for f in prog.closure(hm):
+        for i, n in f.calls():
+            s_ = f.sym(n) or {}
+            if s_.get('name') == 'trustLevel' and len(n.get('args', [])) == 3:
+                for g in prog.callee_fns(f, n):
+                    if g.entry is not None:
+                        tl = g
+    if tl is None:
+        raise AnalysisBroken('C18.R6: the trustLevel() the message handler asks for the sender key was not found (with a body)')
+    run.instance(rid)
+    consts = [(g, i) for g in prog.closure(tl) for i, n in enumerate(g.nodes) if n['k'] == 'enum' and 'TrustLevel' in (n.get('enum') or n.get('name') or '')]
+    fwd = [(g, i) for g in prog.closure(tl) for i, n in g.calls() if (g.sym(n) or {}).get('name') == 'trustLevel' and 'Storage' in ((g.sym(n) or {}).get('record') or '')
+           and len(n.get('args', [])) == 3 and all(g.nodes[g.skip(a)].get('vk') in ('param', 'capture') or g.nodes[g.skip(a)]['k'] == 'var' for a in n['args'])]
+    if consts:
+        g, i = consts[0]
+        run.violation(rid, '%s#level-not-from-storage' % tl.qname, g.loc(i),
+                      '%s produces the level %s itself instead of reporting what the storage holds: a sender key that is not stored as authenticated (an empty key of an '
+                      'unencrypted message, a key equal to some special value) is judged authenticated and its trust message is applied' % (tl.qname, g.nodes[i].get('name')))
+    elif not fwd:
+        run.violation(rid, '%s#level-not-from-storage' % tl.qname, tl.loc(), '%s does not ask the storage for the level of (encryption, owner, key)' % tl.qname)
+    else:
+        run.ok(rid, tl.loc(), '%s forwards to the storage, no level constant' % tl.qname)
+    mk = prog.fn(ATM + '::makeTrustDecisions', nparams=3)
+    run.instance(rid)
+
+    def depth(f):
+        d = 0
+        while f.is_lambda and f.parent_id in prog.fns:
+            f = prog.fns[f.parent_id]
+            d += 1
+        return d
+    au = [(f, i) for f in prog.closure(mk) for i, n in f.calls(ATM + '::authenticate')]
+    di = [(f, i) for f in prog.closure(mk) for i, n in f.calls(ATM + '::distrust')]
+    if not au or not di:
+        raise AnalysisBroken('C18.R6: authenticate() / distrust() calls not found in makeTrustDecisions')
+    if all(depth(d[0]) > depth(a[0]) for d in di for a in au):
+        run.ok(rid, mk.loc(), 'distrust() runs in the continuation of authenticate()')
+    else:
+        run.violation(rid, 'makeTrustDecisions#distrust-before-authenticate', di[0][0].loc(di[0][1]),
+                      'makeTrustDecisions applies the distrust half before (or beside) the authentication half: the postponed decisions released by the authentications run '
+                      'afterwards and can re-authenticate a key the same message distrusts')
